@@ -236,6 +236,23 @@ def run(facts, R):
     _c02.stream_fills_frame(cx, facts, R)
     # ... and the slice parsers hand back buf[48..48+q] as the query and buf[48+q..48+q+b] as the body (shared with C02)
     _c02.accept_guards(cx, facts, R)
+    # one encoding for the body builders and their streaming siblings (shared with C08): a streamed frame declares what it writes, and
+    # aligned padding is computed for the offset the body really gets - otherwise the buffered and the streamed route emit different
+    # bytes for the same logical message
+    from analysis import report as _report8
+    from rules import C08 as _c08
+    sub8 = _report8.Report(R.prop, R.tier, R.config)
+    try:
+        _c08.run(facts, sub8)
+    except Exception as e:
+        sub8.bad("anchor-resolution", "<crate>", "shared-C08-rules", "the shared body-encoding rules could not run: %s" % e)
+    keep8 = ("size-writer-pairs", "padding-base", "anchor-resolution")
+    for inst in sub8.instances:
+        if inst["rule"] in keep8 and inst["verdict"] == "holds":
+            R.instances.append(inst)
+    for v in sub8.violations:
+        if v["rule"] in keep8:
+            R.bad("emission-normal-form" if v["rule"] != "anchor-resolution" else v["rule"], v["fn"], v["what"], v["msg"], v.get("site"), v.get("path"))
 
 
 def format_code_flow(facts, R):
